@@ -143,7 +143,7 @@ theorem lens_eq_data {cfg : LensCfg ℝ} {hy : Hyper ℝ} {ddt dd dLum : ℝ} {b
     out.vals.lookup "lambda_mst" = some (.num lam) ∧
     out.vals.lookup "kin_scaling" = some (.vec ext.kinScaling) ∧
     out.prior = priorLogL cfg.priors out.kwargsParam := by
-  obtain ⟨lam, κ, x, gpl, hlamok, hk, _, _, hprior, hvals⟩ := singlePre_spec h
+  obtain ⟨lam, κ, x, gpl, hlamok, hk, _, _, hprior, _, hvals⟩ := singlePre_spec h
   have e1 : lam = lambdaLens cfg.dist hy.lens := LamOK_sharp hlamok hs.lam
   have e2 : κ = kappaSharp cfg.los hy.los := KappaOK_sharp hk hs.losInd hs.los
   subst e1 e2
